@@ -582,8 +582,27 @@ def e7(e: Engine, rep: Report):
     fn = ctx.func.node
     where = ctx.func.qname
     rep.functions.add(where)
+    def walks(it):
+        if 'walk' in ast.unparse(it):
+            return True
+        # a generator of the class that filters msg.walk()
+        if isinstance(it, ast.Call) and isinstance(it.func, ast.Attribute) \
+                and isinstance(it.func.value, ast.Name) and \
+                it.func.value.id in ('self', 'cls'):
+            h = e.p.lookup_method(ENV, it.func.attr)
+            if h is None:
+                return False
+            if h.is_generator and any(
+                    isinstance(y, ast.For) and 'walk' in ast.unparse(y.iter)
+                    for y in walk_own(h.node)):
+                return True
+            # ... or one that returns a comprehension / filter over it
+            return any(isinstance(r, ast.Return) and r.value is not None and
+                       'walk' in ast.unparse(r.value)
+                       for r in walk_own(h.node))
+        return False
     loops = [x for x in walk_own(fn) if isinstance(x, ast.For) and
-             'walk' in ast.unparse(x.iter)]
+             walks(x.iter)]
     if not loops:
         rep.error('anchor vanished: the loop over msg.walk() in '
                   '_encode_parts')
@@ -598,13 +617,28 @@ def e7(e: Engine, rep: Report):
         # the body of the loop, with a helper the part is handed to
         # (`self._encode_leaf_part(part, encoder)`) looked into
         regions = [(lp, var, set(ctx.func.params))]
+        # (a bound method put in a local first: reencode = self._reencode)
+        alias = {}
+        for a0 in walk_own(fn):
+            if isinstance(a0, ast.Assign) and len(a0.targets) == 1 and \
+                    isinstance(a0.targets[0], ast.Name) and \
+                    isinstance(a0.value, ast.Attribute) and \
+                    isinstance(a0.value.value, ast.Name) and \
+                    a0.value.value.id in ('self', 'cls'):
+                alias[a0.targets[0].id] = a0.value.attr
         for x in ast.walk(lp):
+            hname = None
             if isinstance(x, ast.Call) and isinstance(x.func, ast.Attribute) \
                     and isinstance(x.func.value, ast.Name) and \
-                    x.func.value.id in ('self', 'cls') and any(
+                    x.func.value.id in ('self', 'cls'):
+                hname = x.func.attr
+            elif isinstance(x, ast.Call) and isinstance(x.func, ast.Name) \
+                    and x.func.id in alias:
+                hname = alias[x.func.id]
+            if hname is not None and any(
                         isinstance(a, ast.Name) and a.id == var
                         for a in x.args):
-                h = e.p.lookup_method(ENV, x.func.attr)
+                h = e.p.lookup_method(ENV, hname)
                 if h is not None:
                     prm = [p for p in h.params if p not in ('self', 'cls')]
                     i = [j for j, a in enumerate(x.args)
